@@ -78,8 +78,20 @@ type tapConn struct {
 	mu        sync.Mutex
 	hold      bool
 	buf       []byte
-	flipOne   bool // flip one bit of the next write (used for the auth message)
-	holdLimit int  // keep only about this many held bytes (the rest of a huge frame is never needed)
+	flipOne   bool          // flip one bit of the next write (used for the auth message)
+	holdLimit int           // keep only about this many held bytes (the rest of a huge frame is never needed)
+	deaf      chan struct{} // non-nil: reads do not touch the socket any more (a remote that stops reading); closed to release them
+}
+
+func (t *tapConn) Read(b []byte) (int, error) {
+	t.mu.Lock()
+	deaf := t.deaf
+	t.mu.Unlock()
+	if deaf != nil {
+		<-deaf
+		return 0, io.EOF
+	}
+	return t.Conn.Read(b)
 }
 
 func (t *tapConn) Write(b []byte) (int, error) {
@@ -447,6 +459,36 @@ func (s *wireServer) step(c *wireClient, st wireStep) (to, reply string) {
 			}
 			if c.isClosed(100 * time.Millisecond) {
 				return "closed", "none"
+			}
+			return "ready", "none"
+		case st.In == "deaf-requests":
+			// ask for the largest momentum the node has, 128 times per request, several requests; stop reading; keep pinging.
+			// The node cannot write its replies; its write time-out (20 s) must end the session. Seen from here: a ping fails.
+			if tc, ok := c.tap.Conn.(*net.TCPConn); ok {
+				tc.SetReadBuffer(4096)
+			}
+			deaf := make(chan struct{})
+			c.tap.mu.Lock()
+			c.tap.deaf = deaf
+			c.tap.mu.Unlock()
+			defer close(deaf)
+			hashes := make([]types.Hash, 128)
+			for i := range hashes {
+				hashes[i] = s.genesis
+			}
+			for i := 0; i < 12; i++ {
+				c.tap.Conn.SetWriteDeadline(time.Now().Add(3 * time.Second))
+				if err := p2p.Send(c.rw, 16+5, hashes); err != nil {
+					break
+				}
+			}
+			deadline := time.Now().Add(50 * time.Second)
+			for time.Now().Before(deadline) {
+				c.tap.Conn.SetWriteDeadline(time.Now().Add(3 * time.Second))
+				if err := c.sendRaw(2, []byte{0xC0}); err != nil {
+					return "closed", "none"
+				}
+				time.Sleep(300 * time.Millisecond)
 			}
 			return "ready", "none"
 		case st.In == "pong":
